@@ -307,11 +307,125 @@ fn values_for(kind: Kind, bits: usize, w: usize, exhaustive_upto: usize, rng: &m
     vs
 }
 
+/// one step of a put/parse sequence on a single Assembler / Parser: (carrier index, width selector, value bits)
+pub type SeqOp = (u8, u8, u64);
+
+fn op_params(op: &SeqOp) -> (&'static str, usize, i128) {
+    let c = CARRIERS[(op.0 as usize) % CARRIERS.len()];
+    let bits = carrier_bits(c);
+    let kind = carrier_kind(c);
+    let w0 = if kind == Kind::SM { 2 } else { 1 };
+    let w = w0 + (op.1 as usize) % (bits - w0 + 1);
+    // a representable value derived from the value bits
+    let v: i128 = match kind {
+        Kind::U => (op.2 as u128 & ((1u128 << w) - 1)) as i128,
+        Kind::I => {
+            let m = (op.2 as u128 & ((1u128 << w) - 1)) as i128;
+            if m >= (1i128 << (w - 1)) { m - (1i128 << w) } else { m }
+        }
+        Kind::SM => {
+            let mag = (op.2 as u128 & ((1u128 << (w - 1)) - 1)) as i128;
+            if (op.2 >> 63) & 1 == 1 { -mag } else { mag }
+        }
+    };
+    (c, w, v)
+}
+
+macro_rules! with_carrier {
+    ($name:expr, $C:ident, $body:block) => {
+        match $name {
+            "U8" => { type $C = CU8; $body }
+            "U16" => { type $C = CU16; $body }
+            "U32" => { type $C = CU32; $body }
+            "U64" => { type $C = CU64; $body }
+            "I8" => { type $C = CI8; $body }
+            "I16" => { type $C = CI16; $body }
+            "I32" => { type $C = CI32; $body }
+            "I64" => { type $C = CI64; $body }
+            "SM8" => { type $C = CSM8; $body }
+            "SM16" => { type $C = CSM16; $body }
+            "SM32" => { type $C = CSM32; $body }
+            _ => { type $C = CSM64; $body }
+        }
+    };
+}
+
+/// a sequence of writes on ONE Assembler (some of them overrunning), then a sequence of reads on ONE Parser: after every
+/// step buffer and cursor must equal the reference; a refused step changes nothing and later steps are still exact
+pub fn oracle_sequence(bg: &[u8], start: usize, ops: &[SeqOp]) -> Result<(usize, usize), (String, String)> {
+    let mut buf = bg.to_vec();
+    let mut expect = bg.to_vec();
+    let mut off = start.min(bg.len() * 8);
+    let mut refused = 0usize;
+    let mut accepted_after_refusal = 0usize;
+    let total = bg.len() * 8;
+    {
+        // the buffer can only be inspected while no Assembler borrows it, so the comparison happens at the end of the write
+        // phase; the cursor is compared after every step
+        let mut asm = Assembler::new(&mut buf, off);
+        for (i, op) in ops.iter().enumerate() {
+            let (c, w, v) = op_params(op);
+            let fits = off + w <= total;
+            let r = with_carrier!(c, C, { asm.put::<<C as Car>::IT>(<C as Car>::from_i128(v), w) });
+            match (fits, r) {
+                (true, Ok(())) => {
+                    let p = ref_pattern(carrier_kind(c), w, v).unwrap_or(0);
+                    set_bits(&mut expect, off, w, p);
+                    off += w;
+                    if refused > 0 {
+                        accepted_after_refusal += 1;
+                    }
+                }
+                (false, Err(ref e)) if err_is_overflow(e) => refused += 1,
+                (true, Err(e)) => return Err(("c07:seq-write-rejected".into(), format!("step {}: in-bounds write ({} bits at {}) reported {:?}", i, w, off, e))),
+                (false, Ok(())) => return Err(("c07:seq-overrun-accepted".into(), format!("step {}: write of {} bits at {} past a {}-bit buffer succeeded", i, w, off, total))),
+                (false, Err(e)) => return Err(("c07:seq-overrun-wrong-error".into(), format!("step {}: {:?}", i, e))),
+            }
+            if asm.offset() != off {
+                return Err(("c07:seq-cursor".into(), format!("step {}: cursor is {} after the step, reference {}", i, asm.offset(), off)));
+            }
+        }
+    }
+    if buf != expect {
+        let pos = buf.iter().zip(expect.iter()).position(|(a, b)| a != b).unwrap_or(0);
+        return Err((
+            "c07:seq-buffer".into(),
+            format!("after {} writes on one Assembler ({} refused, {} accepted after a refusal): buffer {} expected {} (first difference at byte {})", ops.len(), refused, accepted_after_refusal, hex(&buf), hex(&expect), pos),
+        ));
+    }
+    // read phase on one Parser over the written buffer
+    let mut par = Parser::new(&buf, start.min(total));
+    let mut roff = start.min(total);
+    for (i, op) in ops.iter().enumerate() {
+        let (c, w, _) = op_params(op);
+        let fits = roff + w <= total;
+        let kind = carrier_kind(c);
+        let want = if fits { Some(ref_value(kind, w, get_bits(&buf, roff, w).unwrap())) } else { None };
+        let got: Result<i128, String> = with_carrier!(c, C, { par.parse::<<C as Car>::IT>(w).map(|x| <C as Car>::to_i128(x)).map_err(|e| format!("{:?}", e)) });
+        match (want, got) {
+            (Some(wv), Ok(g)) => {
+                if g != wv {
+                    return Err(("c07:seq-read-value".into(), format!("read step {}: {} bits at {} returned {}, reference {}", i, w, roff, g, wv)));
+                }
+                roff += w;
+            }
+            (None, Err(e)) if e == "BufferOverflow" => {}
+            (Some(_), Err(e)) => return Err(("c07:seq-read-rejected".into(), format!("read step {}: in-bounds read reported {}", i, e))),
+            (None, Ok(_)) => return Err(("c07:seq-overrun-read-accepted".into(), format!("read step {}: read of {} bits at {} past a {}-bit buffer succeeded", i, w, roff, total))),
+            (None, Err(e)) => return Err(("c07:seq-overrun-wrong-error".into(), format!("read step {}: {}", i, e))),
+        }
+        if par.offset() != roff {
+            return Err(("c07:seq-read-cursor".into(), format!("read step {}: cursor is {}, reference {}", i, par.offset(), roff)));
+        }
+    }
+    Ok((refused, accepted_after_refusal))
+}
+
 pub fn run(ctx: &Ctx, replay: Option<&J>) -> CheckResult {
     let rule = "carriers {U,I,SM} x {8,16,32,64} x width 1..=carrier (SM from 2) x bit offset 0..=71 (quick: all alignments 0..=7 plus sampled \
         larger offsets; both tiers: 16 offsets deep in a 1023-byte body around 128/256/512/1024/4096 and at its very end) x background {00,FF,random} x values {all for width<=12 (thorough 16), else min/max/-1/0/1, one-hot, one-cold, 64 random, plus \
         non-representable values with high garbage bits} and every (offset,width) that overruns buffers of 1..=3 bytes around the field; oracle: reference \
-        bit writer/reader (exact buffer image, cursor, read-back, reference decode of background bits, overflow => error and nothing changed). \
+        bit writer/reader (exact buffer image, cursor, read-back, reference decode of background bits, overflow => error and nothing changed); plus proptest sequences of up to 13 writes on ONE Assembler and reads on ONE Parser (overrunning steps included): cursor after every step and the final buffer equal the reference, steps after a refused one are still exact. \
         non-trivial = every case; distinct = (carrier,width,offset,background,value)"
         .to_string();
     let assumptions = vec![
@@ -319,6 +433,23 @@ pub fn run(ctx: &Ctx, replay: Option<&J>) -> CheckResult {
         "sign-magnitude negative zero is not produced by any representable value and is excluded from the write oracle".to_string(),
     ];
     if let Some(c) = replay {
+        if c["kind"] == "bit-sequence" {
+            let bg = unhex(c["background"].as_str().unwrap_or("")).unwrap_or_default();
+            let start = c["start"].as_u64().unwrap_or(0) as usize;
+            let ops: Vec<SeqOp> = c["ops"].as_array().map(|a| a.iter().filter_map(|o| Some((o[0].as_u64()? as u8, o[1].as_u64()? as u8, o[2].as_str()?.parse::<u64>().ok()?))).collect()).unwrap_or_default();
+            let mut ev = Evidence::new();
+            ev.eval();
+            let mut vs = Vec::new();
+            let r = catch(|| oracle_sequence(&bg, start, &ops));
+            let r = match r {
+                Ok(r) => r,
+                Err(p) => Err((panic_signature(&p), format!("panic: {}", p))),
+            };
+            if let Err((sig, msg)) = r {
+                vs.push(Violation { property: "C07".into(), signature: sig, message: msg, case: c.clone() });
+            }
+            return CheckResult { evidence: ev, rule, assumptions, violations: vs };
+        }
         let carrier = c["carrier"].as_str().unwrap_or("U8").to_string();
         let bg = unhex(c["background"].as_str().unwrap_or("")).unwrap_or_default();
         let off = c["offset"].as_u64().unwrap_or(0) as usize;
@@ -454,6 +585,38 @@ pub fn run(ctx: &Ctx, replay: Option<&J>) -> CheckResult {
         vs.extend(v);
     }
     ev.notes.push("class counters are sampled (1 in 4096 evaluations)".into());
+    // sequences of writes / reads on one Assembler / Parser, overrunning steps included (proptest, shrinking)
+    {
+        use proptest::prelude::*;
+        let cases = ctx.n(400_000, 12_000_000);
+        let (sev, svs) = pt_run(
+            ctx,
+            "c07-seq",
+            cases,
+            || (prop::collection::vec(any::<u8>(), 1..14), 0usize..24, prop::collection::vec((any::<u8>(), any::<u8>(), any::<u64>()), 1..14)),
+            |(bg, start, ops): &(Vec<u8>, usize, Vec<SeqOp>), ev| {
+                let r = oracle_sequence(bg, *start, ops);
+                if let (Ok((refused, after)), Some(ev)) = (&r, ev) {
+                    let mut key = bg.clone();
+                    key.push(*start as u8);
+                    for o in ops {
+                        key.push(o.0);
+                        key.push(o.1);
+                        key.extend_from_slice(&o.2.to_le_bytes());
+                    }
+                    ev.nontrivial_bytes(&key);
+                    ev.class(if *after > 0 { "sequence/accepted-step-after-a-refused-one" } else if *refused > 0 { "sequence/with-refused-step" } else { "sequence/all-accepted" });
+                    if *after > 0 && ev.want_sample() {
+                        ev.sample(json!({"buffer_bytes":bg.len(),"start_bit":start,"steps":ops.iter().map(|o| { let (c,w,v)=op_params(o); format!("{}:{}b={}", c, w, v) }).collect::<Vec<_>>(),"refused":refused}));
+                    }
+                }
+                r.map(|_| ())
+            },
+            |(bg, start, ops)| json!({"kind":"bit-sequence","background":hex(bg),"start":start,"ops":ops.iter().map(|o| json!([o.0, o.1, o.2.to_string()])).collect::<Vec<_>>()}),
+        );
+        ev.merge(sev);
+        vs.extend(svs);
+    }
     vs.truncate(6);
     CheckResult { evidence: ev, rule, assumptions, violations: vs }
 }
